@@ -21,7 +21,8 @@ CHECKS = {
         "Every function of thousands of generated programs (no double; namespaces with globals, nested namespaces, computed subscripts) and of directed call-graph / aliasing / scoping programs is executed on the "
         "source IR and on the Metal syntax tree the generator hands to the formatter (references, metal:: builtins, trampolines, threaded "
         "globals bound to harness storage): results, out/inout values and static/groupshared storage must be bit identical; the extra "
-        "parameters of every emitted function must equal the globals it transitively needs (independent IR walk), by reference.",
+        "parameters of every emitted function must equal the globals it transitively needs (independent IR walk), by reference; a metamorphic "
+        "table checks that const / row_major / column_major on a value that is only read never changes whether the Metal exporter accepts the function.",
         "No Metal compiler in the sandbox: the pre-print tree is interpreted. metal:: semantics from the MSL specification; cases where HLSL and Metal differ on NaN / zero sign are discarded.",
         "DESIGN.md §5 C02, appendix A",
     ),
@@ -30,7 +31,7 @@ CHECKS = {
         "Every module the type checker accepts (unit-test snippets, corpus, thousands of generated programs) is re-typed expression by "
         "expression by an independent checker written from the property, and the IR's own typing function is called on every expression "
         "under panic capture; so is whatever the type checker accepts of a conversion table (33 numeric types squared x in/out/inout argument, "
-        "return, initialiser, assignment); a complete table of ~2900 programs carrying exactly one violation of the five named classes (each "
+        "return, initialiser, assignment); a complete table of ~4000 programs carrying exactly one violation of the five named classes (each "
         "with an accepted twin; repeated swizzles also non-adjacent) must be rejected. Exploration; the negative table is enumerated completely in both tiers.",
         "Rules are the property's (with the documented untyped-literal relaxation); an ill-typed program outside the five classes is not detected.",
         "DESIGN.md §5 C03",
@@ -88,7 +89,8 @@ CHECKS["C16"] = (
     "For ~24k (quick) / 120k (thorough) generated candidate sets of 2-5 overloads x argument tuples (plus 631 directed cases) the call is "
     "type-checked under permutations of the declaration order (all of them in thorough) and the selected candidate is read from the IR "
     "(second observation: assert_type): the outcome must not depend on order, a unique exact match must win, and the winner must not be "
-    "dominated under a rank table written from the documented priority order.",
+    "dominated under a rank table written from the documented priority order (component-wise, and under the compiler's own numeric-before-shape "
+    "order); a quarter of the cases declare the candidates as struct methods, and the same call made earlier in the file must not change the outcome.",
     "Viability of conversions is learned from casting.rs (documented in the check); rank trade-offs the documentation does not order are treated as incomparable.",
     "DESIGN.md §5 C16",
 )
@@ -154,7 +156,8 @@ CHECKS["C17"] = (
     "differential monitor: whole file vs. by name vs. file with the other pipelines blanked, per target",
     "Generated files with 0-4 pipelines (compute, vertex+pixel, mesh+pixel, task+mesh+pixel) sharing entry points, helpers, globals and "
     "resources are compiled in all modes on 4 targets: result count and order, equality of everything observable between All / Named / "
-    "alone, clean errors for unknown names and pipeline-less files, exactly one result in no-pipeline mode.",
+    "alone, clean errors for unknown names and pipeline-less files, exactly one result in no-pipeline mode, and that result unchanged when every "
+    "pipeline definition is blanked out.",
     "Backend rejections (e.g. mesh intrinsics on Metal) are compared as outcomes, not excluded.",
     "DESIGN.md §5 C17",
 )
